@@ -29,7 +29,7 @@ func init() {
 			"go/format (go1.23.5) is the reference for token order and comment order",
 			"when gofmt rewrites comment text (doc-comment reformatting) and dst's output matches neither gofmt's nor the input's comments the case is counted inconclusive, not violated",
 		},
-		Required: map[string]int{"transforms": 9},
+		Required: map[string]int{"transforms": 11},
 	})
 }
 
@@ -74,11 +74,28 @@ func c03Transform(name string, src []byte) []byte {
 		return []byte(s)
 	case "ws-blank":
 		return []byte(strings.ReplaceAll(s, "\n\n", "\n \t\n"))
+	case "semicolons":
+		// explicit semicolons after lines that end a simple statement or declaration
+		lines := strings.Split(s, "\n")
+		for i, l := range lines {
+			t := strings.TrimSpace(l)
+			if t == "" || strings.HasPrefix(t, "//") || strings.Contains(l, "`") || strings.Contains(l, "/*") || strings.Contains(l, "*/") {
+				continue
+			}
+			if strings.HasSuffix(t, ")") || strings.HasSuffix(t, "++") || strings.HasSuffix(t, "--") || strings.HasSuffix(t, "]") {
+				if i+1 < len(lines) && !strings.HasPrefix(strings.TrimSpace(lines[i+1]), ".") {
+					lines[i] = l + ";"
+				}
+			}
+		}
+		return []byte(strings.Join(lines, "\n"))
+	case "double-spaces":
+		return []byte(strings.ReplaceAll(s, " ", "  "))
 	}
 	return src
 }
 
-var c03Transforms = []string{"identity", "crlf", "bom", "spaces", "noindent", "trailing-ws", "double-blank", "no-blank", "ws-blank"}
+var c03Transforms = []string{"identity", "crlf", "bom", "spaces", "noindent", "trailing-ws", "double-blank", "no-blank", "ws-blank", "semicolons", "double-spaces"}
 
 func stripAll(cs []string) []string {
 	out := make([]string, len(cs))
@@ -303,7 +320,8 @@ func runC03(c *fw.Ctx) {
 		if c.Quick() {
 			// rotate: 4 transforms per file in the quick tier
 			k := i % len(c03Transforms)
-			trs = []string{c03Transforms[k], c03Transforms[(k+2)%9], c03Transforms[(k+4)%9], c03Transforms[(k+7)%9]}
+			n := len(c03Transforms)
+			trs = []string{c03Transforms[k], c03Transforms[(k+2)%n], c03Transforms[(k+4)%n], c03Transforms[(k+7)%n], c03Transforms[(k+9)%n]}
 		}
 		for _, tr := range trs {
 			in := c03Transform(tr, src)
